@@ -11,6 +11,8 @@ package c04
 
 import (
 	"fmt"
+	"os"
+	"strconv"
 	"strings"
 	"testing"
 	"testing/synctest"
@@ -54,6 +56,14 @@ func tierBounds() (main bounds, deep *bounds) {
 	return bounds{plain: []string{"a", "b"}, depth: 3, followerTo: 1, replays: 60, budget: 45 * time.Second}, nil
 }
 
+// testBudget lets the budget handling itself be exercised (C04_BUDGET_S=1).
+func testBudget(d time.Duration) time.Duration {
+	if s, err := strconv.Atoi(os.Getenv("C04_BUDGET_S")); err == nil && s > 0 {
+		return time.Duration(s) * time.Second
+	}
+	return d
+}
+
 func runBFS(t *testing.T, name string, b bounds) {
 	sec := R.Sec(name)
 	calls := bfsCalls(b.plain)
@@ -64,7 +74,7 @@ func runBFS(t *testing.T, name string, b bounds) {
 	sec.Bounds["roots"] = "empty pinset; sharded fixture installed (meta + cluster-DAG + 2 shards)"
 	sec.Bounds["option_alphabet"] = "empty + one deviation: name n1/n2; mode direct; factors 1/1 2/3 -1/-1 0/2 1/0 2/1 -1/2 -3/-3 4/4; expiry future1/future2/past; metadata {} {k:v} {k:v'} {k:v,k2:v2} {k2:v2} {k:\"\"} {\"\":x}; origins [o1] [o1,o2] [o2]; user allocations [P2] [P2,P1]; update source = other plain CID / never-pinned / meta"
 	sec.Bounds["follower_mode"] = fmt.Sprintf("every call from every state of depth <= %d (states reached under the same factors with follower mode off)", b.followerTo)
-	budget := ev.NewBudget(b.budget)
+	budget := ev.NewBudget(testBudget(b.budget))
 	var nStates int64
 	for _, cfg := range factorConfigs {
 		fixture := buildFixtureState(t, cfg)
@@ -129,7 +139,7 @@ func TestPairwise(t *testing.T) {
 	if ev.Thorough() {
 		bud = 8 * time.Minute
 	}
-	budget := ev.NewBudget(bud)
+	budget := ev.NewBudget(testBudget(bud))
 	var nStates int64
 	for _, cfg := range factorConfigs {
 		e := &explorer{name: "pairwise", cfg: cfg, calls: calls, seen: map[string]int{}, sec: sec}
